@@ -65,7 +65,8 @@ CloseOnThrow == {"fromcb", "iterevery"}                       \* native closes t
 ThrowsAfter  == {"closethrow", "forofclosethrow"}            \* the activation is return() of a close caused by throw 7
 
 WhileLike == {"while", "forin", "forof", "forawait", "lwhile", "wyield"}   \* boa counts every head
-ForLike   == {"for", "forlet", "dowhile", "ldo", "lfor", "lnest"}          \* boa skips the first head
+ForLike   == {"for", "forlet", "dowhile", "ldo", "lfor", "lnest", "nest2"} \* boa skips the first head
+InnerIters == 2     \* nest2: every body ends with an inner `for` loop of 2 silent iterations (3 heads)
 Forms     == WhileLike \cup ForLike
 
 -----------------------------------------------------------------------------
@@ -80,7 +81,7 @@ Kids(p, s) == {c \in 1..NA : Acts[c].par = p /\ Acts[c].site = s}
 MinOf(S) == CHOOSE x \in S : \A y \in S : x <= y
 NextKid(p, s, after) == LET K == {c \in Kids(p, s) : c > after} IN IF K = {} THEN 0 ELSE MinOf(K)
 
-NewFrame(a, d) == [a |-> a, ph |-> "enter", i |-> 0, k |-> 0, h |-> 0, e |-> 0, cnt |-> 0, d |-> d,
+NewFrame(a, d) == [a |-> a, ph |-> "enter", i |-> 0, j |-> 0, k |-> 0, h |-> 0, e |-> 0, cnt |-> 0, d |-> d,
                    fh |-> FALSE, site |-> "p", res |-> FALSE]
 
 Off == [L |-> -1, R |-> -1, S |-> -1]
@@ -128,6 +129,7 @@ Note(mm, c) == [mm EXCEPT !.exact = @ /\ c.ex, !.wok = @ /\ (c.wok \/ ~mm.exact)
 
 FireLimit(mm, kind, c, meas) ==
     LET info == [s |-> mm.step, kind |-> kind, meas |-> meas,
+                 ids |-> [x \in 1..Len(mm.stack) |-> mm.stack[x].a],
                  chain |-> [x \in 1..Len(mm.stack) |-> Acts[mm.stack[x].a].route],
                  forms |-> [x \in 1..Len(mm.stack) |-> Acts[mm.stack[x].a].form],
                  cont |-> IF mm.stack = <<>> THEN FALSE ELSE mm.stack[1].res]
@@ -251,8 +253,15 @@ Run(mm, lims) ==
       [] f.ph = "bend" ->
             {WithTop(IF HasF(a.bwrap) THEN Out(mm, <<Ev(EvBFin, f.a, 0)>>) ELSE mm, [f EXCEPT !.ph = "bend2"])}
       [] f.ph = "bend2" ->       \* lnest: the inner for(;;) is entered; its first head is free
-            {WithTop(mm, IF a.form = "lnest" THEN [f EXCEPT !.ph = "head", !.e = @ + 1, !.h = @ + 1]
-                                             ELSE [f EXCEPT !.ph = "head"])}
+            {WithTop(mm, CASE a.form = "lnest" -> [f EXCEPT !.ph = "head", !.e = @ + 1, !.h = @ + 1]
+                           [] a.form = "nest2" -> [f EXCEPT !.ph = "ihead", !.e = @ + 1, !.j = 0]
+                           [] OTHER -> [f EXCEPT !.ph = "head"])}
+      [] f.ph = "ihead" ->       \* nest2: heads of the silent inner loop count against the same activation
+            LET first == f.j = 0 IN
+            {IF c.fire # "" THEN FireLimit(mm, c.fire, c, f.h)
+             ELSE WithTop(Note(mm, c), [f EXCEPT !.h = @ + 1, !.cnt = IF first THEN @ ELSE @ + 1, !.j = @ + 1,
+                                                 !.ph = IF f.j = InnerIters THEN "head" ELSE "ihead"])
+               : c \in LoopChoices(lims, f, ~first, first)}
       [] f.ph = "lexit" ->
             {WithTop(IF HasF(a.lwrap) THEN Out(mm, <<Ev(EvLFin, f.a, 0)>>) ELSE mm,
                      [f EXCEPT !.ph = "call0", !.site = "p", !.k = NextKid(f.a, "p", 0)])}
@@ -304,7 +313,8 @@ AllFrames == {m.stack[x] : x \in 1..Len(m.stack)} \cup {m.queue[x].f : x \in 1..
 
 \* work is bounded: heads beyond the free first head of each loop never exceed L+1, bodies never exceed L+2
 LoopBound == sc.L >= 0 => \A f \in AllFrames : /\ f.h - f.e <= sc.L + 1
-                                                /\ Acts[f.a].form # "lnest" => f.i <= sc.L + 2
+                                                /\ (Acts[f.a].form \notin {"lnest", "nest2"} => f.i <= sc.L + 2)
+                                                /\ (Acts[f.a].form = "nest2" => f.i * (InnerIters + 1) <= sc.L + 1 + 2 * (InnerIters + 1))
 \* the limit never fires early: a loop limit only after more than L heads, a recursion limit only at depth >= R
 NoEarlyFire == \A x \in 1..Len(m.fire) :
                   /\ m.fire[x].kind = "limit:LoopIteration" => (sc.L >= 0 /\ m.fire[x].meas >= sc.L + 1)
